@@ -1,105 +1,1326 @@
-// temporary probe
+//! C18 correspondence harness: the real `compio_dispatcher::Dispatcher` (worker threads each running a
+//! compio runtime, flume MPMC queue, oneshot result channels, `join`) driven by text operations; the model
+//! side is lean/Drivers/C18.lean (Model/Dispatcher.lean, Model/DispatcherTrace.lean).
+//!
+//! Two kinds of cases:
+//!
+//! * **det** cases (`cfg` / `d` / `b` / `drop` / `wait` / `join` / `rx` / `stat` / `order` / `alive` lines):
+//!   one dispatching thread (the harness thread, inside a compio runtime). The generator only asks for facts
+//!   that do not depend on the schedule (rules in `gen_det`), so the Lean driver predicts every output line
+//!   exactly by running a canonical schedule of the transition system.
+//! * **conc** cases (one `hist …` line): 1..8 workers, 1..8 dispatching threads, both modes, join at
+//!   various points. The schedule is not controlled: `generate` runs the real dispatcher, records the
+//!   observable events in one global order (dispatch intent / accepted / rejected, start(worker, task), body
+//!   end, blocking closure ran, worker-thread panic, join called / returned, worker threads still alive,
+//!   receiver got value / cancellation / nothing), and the line is judged twice: by the
+//!   implementation-only oracle `judge_hist` here (monitors) and by the Lean trace acceptor, which replays
+//!   it on the model (`accept` / `reject <why>`).
+//!
+//! Task bodies: a list of suspensions (`y` yield, `s` 1 ms timer, `t` 2 ms timer, `i` pipe I/O through
+//! compio-fs) and an end: `v<n>` return n, `p` panic, `n` sleep 30 s (outlives the case), `b` "bomb": arms
+//! a compio timer with a waker that panics, i.e. makes the *worker thread* panic outside of any task.
+//!
+//! Monitors (implementation only): `C18:started-twice`, `C18:never-started` / `C18:unfinished-at-join`
+//! (sequential mode, no worker died), `C18:overlap` (sequential mode, per-worker gauge), `C18:foreign-thread`
+//! (a task ran on a thread that is not a worker of this dispatcher), `C18:wrong-result`,
+//! `C18:spurious-cancel` (receiver cancelled although nothing dropped the task), `C18:receiver-hang`,
+//! `C18:join-result` (worker panic not re-raised / spurious), `C18:worker-alive-after-join`,
+//! `C18:join-hang`.
+#![allow(clippy::too_many_arguments)]
+
 use std::{
+    collections::{BTreeMap, BTreeSet, HashMap},
+    future::Future,
     num::NonZeroUsize,
+    panic::AssertUnwindSafe,
+    pin::{Pin, pin},
     sync::{
-        Arc,
-        atomic::{AtomicUsize, Ordering},
+        Arc, Mutex,
+        atomic::{AtomicU32, AtomicUsize, Ordering},
     },
-    task::{Context, Wake, Waker},
+    task::{Context, Poll, Wake, Waker},
+    thread,
     time::{Duration, Instant},
 };
 
 use compio_dispatcher::Dispatcher;
+use compio_driver::ProactorBuilder;
+use compio_io::{AsyncReadExt, AsyncWriteExt};
 use compio_runtime::Runtime;
+use futures_channel::oneshot;
+use futures_util::FutureExt;
+use hx_common::*;
 
-struct Bomb;
-impl Wake for Bomb {
-    fn wake(self: Arc<Self>) {
-        panic!("bomb");
+const WATCHDOG: Duration = Duration::from_secs(5);
+const JOIN_WATCHDOG: Duration = Duration::from_secs(10);
+const NEVER: Duration = Duration::from_secs(30);
+const MAX_TASKS: usize = 512;
+const MAX_WORKERS: usize = 8;
+
+static RUN_ID: AtomicU32 = AtomicU32::new(1);
+
+// ---------------------------------------------------------------------------------------------
+// what a task does
+// ---------------------------------------------------------------------------------------------
+
+#[derive(Clone, Copy, PartialEq, Eq, Debug)]
+enum End {
+    Val(u64),
+    Panic,
+    Never,
+    Bomb,
+}
+
+#[derive(Clone, Debug)]
+struct Spec {
+    t: usize,
+    susp: String,
+    end: End,
+}
+
+fn parse_end(s: &str) -> Option<End> {
+    match s {
+        "p" => Some(End::Panic),
+        "n" => Some(End::Never),
+        "b" => Some(End::Bomb),
+        _ => s.strip_prefix('v').and_then(|v| v.parse().ok()).map(End::Val),
     }
 }
 
-fn main() {
-    std::panic::set_hook(Box::new(|_| {}));
-    let rt = Runtime::new().unwrap();
-    // 1. task panic
-    rt.block_on(async {
-        let d = Dispatcher::builder()
-            .worker_threads(NonZeroUsize::new(2).unwrap())
-            .thread_names(|i| format!("c18w{i}"))
-            .build()
-            .unwrap();
-        let rx = d.dispatch(|| async { panic!("task panic") }).unwrap();
-        let rx2 = d.dispatch(|| async { std::thread::current().name().map(|s| s.to_string()) }).unwrap();
-        println!("panic task rx: {:?}", rx.await.map(|_: ()| ()));
-        println!("rx2: {:?}", rx2.await);
-        let r = hx_common::catch(|| futures_util::FutureExt::now_or_never(async { 1 }));
-        let _ = r;
-        let t0 = Instant::now();
-        let res = d.join().await;
-        println!("join: {:?} in {:?}", res, t0.elapsed());
-    });
-    // 2. bomb
-    let r = hx_common::catch(|| {
-        rt.block_on(async {
-            let d = Dispatcher::builder()
-                .worker_threads(NonZeroUsize::new(1).unwrap())
-                .build()
-                .unwrap();
-            let rx = d
-                .dispatch(|| async {
-                    let mut s = std::pin::pin!(compio_runtime::time::sleep(Duration::from_millis(2)));
-                    let w = Waker::from(Arc::new(Bomb));
-                    let mut cx = Context::from_waker(&w);
-                    let _ = s.as_mut().poll(&mut cx);
-                    std::future::pending::<()>().await;
-                })
-                .unwrap();
-            println!("bomb rx: {:?}", rx.await);
-            let r2 = d.dispatch(|| async { 5 });
-            println!("dispatch after death: {:?}", r2.is_ok());
-            let res = d.join().await;
-            println!("join: {:?}", res);
+fn show_end(e: End) -> String {
+    match e {
+        End::Val(v) => format!("v{v}"),
+        End::Panic => "p".into(),
+        End::Never => "n".into(),
+        End::Bomb => "b".into(),
+    }
+}
+
+#[derive(Default)]
+struct Counters {
+    started: AtomicUsize,
+    ended: AtomicUsize,
+    workers: Mutex<Vec<usize>>,
+}
+
+/// Everything the task bodies of one dispatcher report to.
+struct Ctx {
+    run: u32,
+    sequential: bool,
+    record: bool,
+    log: Mutex<Vec<String>>,
+    order: Mutex<Vec<usize>>,
+    tasks: Vec<Counters>,
+    gauge: Vec<AtomicUsize>,
+    problems: Mutex<Vec<(String, String)>>,
+    /// worker-thread panics made by bomb wakers: (worker, payload)
+    died: Mutex<Vec<(usize, usize)>>,
+}
+
+impl Ctx {
+    fn new(sequential: bool, record: bool) -> Arc<Self> {
+        Arc::new(Ctx {
+            run: RUN_ID.fetch_add(1, Ordering::Relaxed) % 1_000_000,
+            sequential,
+            record,
+            log: Mutex::new(vec![]),
+            order: Mutex::new(vec![]),
+            tasks: (0..MAX_TASKS).map(|_| Counters::default()).collect(),
+            gauge: (0..MAX_WORKERS).map(|_| AtomicUsize::new(0)).collect(),
+            problems: Mutex::new(vec![]),
+            died: Mutex::new(vec![]),
         })
-    });
-    println!("bomb outer: {:?}", r);
-    // 3. backlog
-    for n in [10usize, 61, 62, 100, 300] {
-        for conc in [true, false] {
-            rt.block_on(async {
-                let d = Dispatcher::builder()
-                    .worker_threads(NonZeroUsize::new(1).unwrap())
-                    .concurrent(conc)
-                    .build()
-                    .unwrap();
-                let started = Arc::new(AtomicUsize::new(0));
-                let mut rxs = vec![];
-                for _ in 0..n {
-                    let st = started.clone();
-                    rxs.push(
-                        d.dispatch(move || async move {
-                            st.fetch_add(1, Ordering::SeqCst);
-                            7
-                        })
-                        .unwrap(),
-                    );
-                }
-                let res = d.join().await;
-                let mut vals = 0;
-                let mut canc = 0;
-                for rx in rxs {
-                    match rx.await {
-                        Ok(_) => vals += 1,
-                        Err(_) => canc += 1,
-                    }
-                }
-                println!(
-                    "backlog n={n} conc={conc}: join {:?} started {} vals {vals} canc {canc}",
-                    res,
-                    started.load(Ordering::SeqCst)
-                );
-            });
+    }
+
+    fn prefix(&self) -> String {
+        format!("c18.{}.", self.run)
+    }
+
+    fn problem(&self, sig: &str, detail: String) {
+        self.problems.lock().unwrap().push((sig.to_string(), detail));
+    }
+
+    fn push(&self, tok: String) {
+        if self.record {
+            self.log.lock().unwrap().push(tok);
         }
     }
-    use std::future::Future;
+
+    /// index of the worker thread we are on, from the thread name given through `thread_names`
+    fn worker(&self) -> Option<usize> {
+        let cur = thread::current();
+        let name = cur.name()?;
+        name.strip_prefix(&self.prefix())?.parse().ok()
+    }
+}
+
+/// Marks "task `t` is between start and end on worker `w`"; dropped with the task.
+struct RunGuard {
+    ctx: Arc<Ctx>,
+    w: usize,
+}
+
+impl Drop for RunGuard {
+    fn drop(&mut self) {
+        if self.w < MAX_WORKERS {
+            self.ctx.gauge[self.w].fetch_sub(1, Ordering::SeqCst);
+        }
+    }
+}
+
+struct YieldNow(bool);
+impl Future for YieldNow {
+    type Output = ();
+
+    fn poll(mut self: Pin<&mut Self>, cx: &mut Context<'_>) -> Poll<()> {
+        if self.0 {
+            Poll::Ready(())
+        } else {
+            self.0 = true;
+            cx.waker().wake_by_ref();
+            Poll::Pending
+        }
+    }
+}
+
+struct BombWaker {
+    ctx: Arc<Ctx>,
+    t: usize,
+}
+
+impl Wake for BombWaker {
+    fn wake(self: Arc<Self>) {
+        let w = self.ctx.worker().unwrap_or(99);
+        {
+            // one lock: the log entry is in place before the unwinding starts
+            let mut log = self.ctx.log.lock().unwrap();
+            self.ctx.died.lock().unwrap().push((w, self.t));
+            if self.ctx.record {
+                log.push(format!("x.{w}.{}", self.t));
+            }
+        }
+        panic!("bomb {}", self.t);
+    }
+}
+
+async fn pipe_io(t: usize) {
+    let (mut rx, mut tx) = compio_fs::pipe::anonymous().await.expect("pipe");
+    let msg = vec![t as u8, 0x5a];
+    tx.write_all(msg.clone()).await.0.expect("pipe write");
+    let (_, buf) = rx.read_exact(Vec::with_capacity(2)).await.unwrap();
+    assert_eq!(buf, msg);
+}
+
+async fn body(ctx: Arc<Ctx>, spec: Spec) -> u64 {
+    let t = spec.t;
+    let w = match ctx.worker() {
+        Some(w) => w,
+        None => {
+            ctx.problem(
+                "C18:foreign-thread",
+                format!("task {t} started on thread {:?}, not a worker of this dispatcher", thread::current().name()),
+            );
+            usize::MAX
+        }
+    };
+    // ---- start
+    {
+        let mut log = ctx.log.lock().unwrap();
+        ctx.tasks[t].started.fetch_add(1, Ordering::SeqCst);
+        ctx.tasks[t].workers.lock().unwrap().push(w);
+        ctx.order.lock().unwrap().push(t);
+        if ctx.record {
+            log.push(format!("s.{w}.{t}"));
+        }
+    }
+    let _guard = RunGuard { ctx: ctx.clone(), w };
+    if w < MAX_WORKERS {
+        let before = ctx.gauge[w].fetch_add(1, Ordering::SeqCst);
+        if ctx.sequential && before != 0 {
+            ctx.problem("C18:overlap", format!("worker {w}: task {t} started while {before} other task(s) were running"));
+        }
+    }
+    for c in spec.susp.chars() {
+        match c {
+            'y' => YieldNow(false).await,
+            's' => compio_runtime::time::sleep(Duration::from_millis(1)).await,
+            't' => compio_runtime::time::sleep(Duration::from_millis(2)).await,
+            'i' => pipe_io(t).await,
+            _ => {}
+        }
+    }
+    match spec.end {
+        End::Never => {
+            compio_runtime::time::sleep(NEVER).await;
+            0
+        }
+        End::Bomb => {
+            let mut s = pin!(compio_runtime::time::sleep(Duration::from_millis(2)));
+            let waker = Waker::from(Arc::new(BombWaker { ctx: ctx.clone(), t }));
+            let mut cx = Context::from_waker(&waker);
+            let _ = s.as_mut().poll(&mut cx);
+            std::future::pending::<()>().await;
+            0
+        }
+        End::Val(v) => {
+            let mut log = ctx.log.lock().unwrap();
+            ctx.tasks[t].ended.fetch_add(1, Ordering::SeqCst);
+            if ctx.record {
+                log.push(format!("f.{t}"));
+            }
+            v
+        }
+        End::Panic => {
+            {
+                let mut log = ctx.log.lock().unwrap();
+                ctx.tasks[t].ended.fetch_add(1, Ordering::SeqCst);
+                if ctx.record {
+                    log.push(format!("f.{t}"));
+                }
+            }
+            panic!("task {t} panics")
+        }
+    }
+}
+
+fn blocking_body(ctx: &Ctx, t: usize, end: End) -> u64 {
+    {
+        let mut log = ctx.log.lock().unwrap();
+        ctx.tasks[t].started.fetch_add(1, Ordering::SeqCst);
+        ctx.tasks[t].ended.fetch_add(1, Ordering::SeqCst);
+        if ctx.worker().is_some() {
+            ctx.problem("C18:foreign-thread", format!("blocking task {t} ran on a worker thread"));
+        }
+        if ctx.record {
+            log.push(format!("B.{t}"));
+        }
+    }
+    match end {
+        End::Val(v) => v,
+        _ => panic!("blocking task {t} panics"),
+    }
+}
+
+// ---------------------------------------------------------------------------------------------
+// building a dispatcher from a `cfg` line
+// ---------------------------------------------------------------------------------------------
+
+struct Cfg {
+    w: usize,
+    conc: bool,
+    stack: Option<usize>,
+    affinity: bool,
+    capacity: Option<u32>,
+}
+
+fn parse_cfg(ws: &[&str]) -> Option<Cfg> {
+    let w: usize = ws.first()?.parse().ok()?;
+    let conc = match *ws.get(1)? {
+        "c" => true,
+        "s" => false,
+        _ => return None,
+    };
+    if w == 0 || w > MAX_WORKERS {
+        return None;
+    }
+    let mut cfg = Cfg { w, conc, stack: None, affinity: false, capacity: None };
+    for o in &ws[2..] {
+        if let Some(v) = o.strip_prefix("stack=") {
+            cfg.stack = v.parse().ok();
+        } else if *o == "aff" {
+            cfg.affinity = true;
+        } else if let Some(v) = o.strip_prefix("cap=") {
+            cfg.capacity = v.parse().ok();
+        }
+    }
+    Some(cfg)
+}
+
+fn build(cfg: &Cfg, ctx: &Arc<Ctx>) -> std::io::Result<Dispatcher> {
+    let prefix = ctx.prefix();
+    let mut b = Dispatcher::builder()
+        .worker_threads(NonZeroUsize::new(cfg.w).unwrap())
+        .concurrent(cfg.conc)
+        .thread_names(move |i| format!("{prefix}{i}"));
+    if let Some(s) = cfg.stack {
+        b = b.stack_size(s);
+    }
+    if cfg.affinity {
+        // every worker may run on every cpu we are allowed on: exercises the option without pinning
+        let n = thread::available_parallelism().map(|n| n.get()).unwrap_or(1);
+        b = b.thread_affinity(move |_| (0..n).collect());
+    }
+    if let Some(c) = cfg.capacity {
+        let mut pb = ProactorBuilder::new();
+        pb.capacity(c);
+        b = b.proactor_builder(pb);
+    }
+    b.build()
+}
+
+/// worker threads of this dispatcher that still exist (`/proc/self/task/*/comm`)
+fn alive_workers(ctx: &Ctx) -> usize {
+    let prefix = ctx.prefix();
+    let mut n = 0;
+    if let Ok(rd) = std::fs::read_dir("/proc/self/task") {
+        for e in rd.flatten() {
+            if let Ok(comm) = std::fs::read_to_string(e.path().join("comm")) {
+                if comm.trim_end().starts_with(&prefix) {
+                    n += 1;
+                }
+            }
+        }
+    }
+    n
+}
+
+fn bomb_payload(msg: &str) -> Option<usize> {
+    msg.strip_prefix("bomb ").and_then(|t| t.parse().ok())
+}
+
+fn panic_text(e: Box<dyn std::any::Any + Send>) -> String {
+    if let Some(s) = e.downcast_ref::<&str>() {
+        s.to_string()
+    } else if let Some(s) = e.downcast_ref::<String>() {
+        s.clone()
+    } else {
+        "panic".into()
+    }
+}
+
+#[derive(Clone, Copy, PartialEq, Eq, Debug)]
+enum Seen {
+    Val(u64),
+    Cancelled,
+    Hang,
+}
+
+fn show_seen(s: Seen) -> String {
+    match s {
+        Seen::Val(v) => format!("val {v}"),
+        Seen::Cancelled => "cancelled".into(),
+        Seen::Hang => "hang".into(),
+    }
+}
+
+// ---------------------------------------------------------------------------------------------
+// det cases
+// ---------------------------------------------------------------------------------------------
+
+struct Det {
+    ctx: Arc<Ctx>,
+    cfg: Option<Cfg>,
+    disp: Option<Dispatcher>,
+    specs: BTreeMap<usize, (End, bool)>, // end, blocking
+    accepted: BTreeSet<usize>,
+    rxs: BTreeMap<usize, oneshot::Receiver<u64>>,
+    seen: BTreeMap<usize, Seen>,
+    joined: Option<String>,
+}
+
+impl Det {
+    fn dispatch(&mut self, spec: Spec) -> String {
+        let Some(d) = &self.disp else { return "no-dispatcher".into() };
+        let ctx = self.ctx.clone();
+        let t = spec.t;
+        self.specs.insert(t, (spec.end, false));
+        match d.dispatch(move || body(ctx, spec)) {
+            Ok(rx) => {
+                self.accepted.insert(t);
+                self.rxs.insert(t, rx);
+                "acc".into()
+            }
+            Err(e) => {
+                drop(e.0);
+                "rej".into()
+            }
+        }
+    }
+
+    fn dispatch_blocking(&mut self, t: usize, end: End) -> String {
+        let Some(d) = &self.disp else { return "no-dispatcher".into() };
+        let ctx = self.ctx.clone();
+        self.specs.insert(t, (end, true));
+        match d.dispatch_blocking(move || blocking_body(&ctx, t, end)) {
+            Ok(rx) => {
+                self.accepted.insert(t);
+                self.rxs.insert(t, rx);
+                "acc".into()
+            }
+            Err(_) => "rej".into(),
+        }
+    }
+
+    async fn wait(&mut self, t: usize, ex: &mut Exec) -> String {
+        if let Some(s) = self.seen.get(&t) {
+            return show_seen(*s);
+        }
+        let Some(rx) = self.rxs.remove(&t) else { return "unknown".into() };
+        let seen = match compio_runtime::time::timeout(WATCHDOG, rx).await {
+            Ok(Ok(v)) => Seen::Val(v),
+            Ok(Err(_)) => Seen::Cancelled,
+            Err(_) => Seen::Hang,
+        };
+        self.seen.insert(t, seen);
+        self.check_seen(t, seen, ex);
+        show_seen(seen)
+    }
+
+    fn check_seen(&self, t: usize, seen: Seen, ex: &mut Exec) {
+        let (end, _) = self.specs[&t];
+        match (seen, end) {
+            (Seen::Val(v), End::Val(x)) if v == x => {}
+            (Seen::Val(v), _) => ex.fail("C18:wrong-result", format!("receiver of task {t} ({end:?}) got {v}")),
+            (Seen::Cancelled, End::Val(_)) if self.joined.is_none() && !self.any_bomb() => {
+                ex.fail("C18:spurious-cancel", format!("receiver of task {t} cancelled before join, no panic involved"))
+            }
+            (Seen::Cancelled, End::Val(_))
+                if self.joined.is_some() && self.ctx.sequential && self.ctx.died.lock().unwrap().is_empty() =>
+            {
+                ex.fail(
+                    "C18:spurious-cancel",
+                    format!("sequential mode, no worker died: receiver of task {t} cancelled although join returned"),
+                )
+            }
+            (Seen::Hang, _) if self.joined.is_some() => {
+                ex.fail("C18:receiver-hang", format!("receiver of task {t} unresolved {WATCHDOG:?} after join returned"))
+            }
+            (Seen::Hang, _) => ex.fail(
+                "C18:receiver-hang-before-join",
+                format!("receiver of task {t} unresolved after {WATCHDOG:?} (join not called)"),
+            ),
+            _ => {}
+        }
+    }
+
+    fn any_bomb(&self) -> bool {
+        self.specs.values().any(|(e, _)| *e == End::Bomb)
+    }
+
+    async fn join(&mut self, ex: &mut Exec) -> String {
+        let Some(d) = self.disp.take() else { return "no-dispatcher".into() };
+        let res = compio_runtime::time::timeout(JOIN_WATCHDOG, AssertUnwindSafe(d.join()).catch_unwind()).await;
+        let out = match res {
+            Err(_) => {
+                ex.fail("C18:join-hang", format!("join did not return within {JOIN_WATCHDOG:?}"));
+                "hang".to_string()
+            }
+            Ok(Ok(Ok(()))) => "ok".to_string(),
+            Ok(Ok(Err(e))) => format!("err {:?}", e.kind()),
+            Ok(Err(p)) => {
+                let msg = panic_text(p);
+                match bomb_payload(&msg) {
+                    Some(t) => format!("panic {t}"),
+                    None => format!("panic ? {msg}"),
+                }
+            }
+        };
+        self.joined = Some(out.clone());
+        // ---- monitors at join return
+        let alive = alive_workers(&self.ctx);
+        if alive != 0 && out != "hang" {
+            ex.fail("C18:worker-alive-after-join", format!("{alive} worker thread(s) still exist after join returned"));
+        }
+        let died = !self.ctx.died.lock().unwrap().is_empty();
+        let bombs_started = self
+            .specs
+            .iter()
+            .filter(|(t, (e, _))| *e == End::Bomb && self.ctx.tasks[**t].started.load(Ordering::SeqCst) > 0)
+            .count();
+        if out == "ok" && died {
+            ex.fail("C18:join-result", "a worker thread panicked but join returned Ok".to_string());
+        }
+        if out.starts_with("panic") && !died {
+            ex.fail("C18:join-result", format!("join resumed a panic ({out}) although no worker thread panicked"));
+        }
+        if self.ctx.sequential && bombs_started > 0 && out == "ok" {
+            ex.fail("C18:join-result", "sequential mode: a worker was inside a bomb task, join returned Ok".to_string());
+        }
+        if self.ctx.sequential && !died && out == "ok" {
+            for t in &self.accepted {
+                let (_, blocking) = self.specs[t];
+                if blocking {
+                    continue;
+                }
+                let st = self.ctx.tasks[*t].started.load(Ordering::SeqCst);
+                let en = self.ctx.tasks[*t].ended.load(Ordering::SeqCst);
+                if st == 0 {
+                    ex.fail("C18:never-started", format!("sequential mode: accepted task {t} was never started although join returned"));
+                } else if en == 0 {
+                    ex.fail("C18:unfinished-at-join", format!("sequential mode: task {t} had not finished when join returned"));
+                }
+            }
+        }
+        // every remaining receiver must resolve now
+        let pending: Vec<usize> = self.rxs.keys().copied().collect();
+        for t in pending {
+            let _ = self.wait(t, ex).await;
+        }
+        out
+    }
+
+    fn final_monitors(&mut self, ex: &mut Exec) {
+        for (t, (_, blocking)) in &self.specs {
+            let st = self.ctx.tasks[*t].started.load(Ordering::SeqCst);
+            if st > 1 {
+                ex.fail("C18:started-twice", format!("task {t} was started {st} times"));
+            }
+            if st > 0 && !self.accepted.contains(t) {
+                ex.fail("C18:started-unaccepted", format!("task {t} was rejected by dispatch but ran"));
+            }
+            let ws = self.ctx.tasks[*t].workers.lock().unwrap();
+            if !*blocking && ws.len() != st {
+                ex.fail("C18:started-twice", format!("task {t}: workers {ws:?} for {st} start(s)"));
+            }
+        }
+        for (sig, detail) in self.ctx.problems.lock().unwrap().drain(..) {
+            ex.fail(sig, detail);
+        }
+    }
+}
+
+fn exec_det(rt: &Runtime, case: &Case) -> Exec {
+    let mut ex = Exec::new();
+    let mut d = Det {
+        ctx: Ctx::new(false, false),
+        cfg: None,
+        disp: None,
+        specs: BTreeMap::new(),
+        accepted: BTreeSet::new(),
+        rxs: BTreeMap::new(),
+        seen: BTreeMap::new(),
+        joined: None,
+    };
+    let mut outs = vec![];
+    rt.block_on(async {
+        for line in &case.lines {
+            let ws: Vec<&str> = line.split_whitespace().collect();
+            let out = match ws.as_slice() {
+                ["hist", rest @ ..] => judge_hist(rest, &mut ex),
+                ["cfg", rest @ ..] => match parse_cfg(rest) {
+                    Some(cfg) if d.cfg.is_none() => {
+                        d.ctx = Ctx::new(!cfg.conc, false);
+                        // the bomb waker logs its firing even in det cases (used as "a worker died")
+                        match build(&cfg, &d.ctx) {
+                            Ok(disp) => {
+                                d.disp = Some(disp);
+                                ex.tag(format!("w:{}", cfg.w));
+                                ex.tag(if cfg.conc { "mode:concurrent" } else { "mode:sequential" });
+                                d.cfg = Some(cfg);
+                                "ok".to_string()
+                            }
+                            Err(e) => format!("err {:?}", e.kind()),
+                        }
+                    }
+                    _ => "bad-op".into(),
+                },
+                ["d", t, susp, end, ..] => match (t.parse::<usize>(), parse_end(end)) {
+                    (Ok(t), Some(end)) if t < MAX_TASKS && !d.specs.contains_key(&t) => {
+                        ex.tag(format!("body:{}", show_end(end).chars().next().unwrap()));
+                        let susp = if *susp == "-" { String::new() } else { susp.to_string() };
+                        d.dispatch(Spec { t, susp, end })
+                    }
+                    _ => "bad-op".into(),
+                },
+                ["b", t, end] => match (t.parse::<usize>(), parse_end(end)) {
+                    (Ok(t), Some(end)) if t < MAX_TASKS && !d.specs.contains_key(&t) => {
+                        ex.tag("body:blocking");
+                        d.dispatch_blocking(t, end)
+                    }
+                    _ => "bad-op".into(),
+                },
+                ["drop", t] => match t.parse::<usize>() {
+                    Ok(t) if d.rxs.remove(&t).is_some() => "ok".into(),
+                    _ => "bad-op".into(),
+                },
+                ["wait", t] | ["rx", t] => match t.parse::<usize>() {
+                    Ok(t) => {
+                        let o = d.wait(t, &mut ex).await;
+                        ex.tag(format!("rx:{}", o.split(' ').next().unwrap()));
+                        o
+                    }
+                    _ => "bad-op".into(),
+                },
+                ["join"] => {
+                    let o = d.join(&mut ex).await;
+                    ex.tag(format!("join:{}", o.split(' ').next().unwrap()));
+                    o
+                }
+                ["stat", t] => match t.parse::<usize>() {
+                    Ok(t) if t < MAX_TASKS => format!(
+                        "started {} on {} ended {}",
+                        d.ctx.tasks[t].started.load(Ordering::SeqCst),
+                        d.ctx.tasks[t].workers.lock().unwrap().iter().filter(|w| **w != usize::MAX).count(),
+                        d.ctx.tasks[t].ended.load(Ordering::SeqCst)
+                    ),
+                    _ => "bad-op".into(),
+                },
+                ["order"] => {
+                    let o = d.ctx.order.lock().unwrap();
+                    let mut s = String::from("order");
+                    for t in o.iter() {
+                        s.push_str(&format!(" {t}"));
+                    }
+                    s
+                }
+                ["alive"] => format!("alive {}", alive_workers(&d.ctx)),
+                _ => "bad-op".into(),
+            };
+            outs.push(out);
+        }
+        // never leave worker threads behind
+        if d.disp.is_some() {
+            let mut scratch = Exec::new();
+            let _ = d.join(&mut scratch).await;
+            ex.failures.extend(scratch.failures);
+        }
+    });
+    d.final_monitors(&mut ex);
+    ex.out = outs;
+    let n_disp = case.lines.iter().filter(|l| l.starts_with("d ")).count();
+    ex.nontrivial = case.lines.iter().any(|l| l.starts_with("hist "))
+        || (n_disp >= 2 && case.lines.iter().any(|l| l == "join"));
+    ex
+}
+
+// ---------------------------------------------------------------------------------------------
+// implementation-only judge of a recorded history
+// ---------------------------------------------------------------------------------------------
+
+fn judge_hist(ws: &[&str], ex: &mut Exec) -> String {
+    let mut verdict: Option<String> = None;
+    let mut bad = |ex: &mut Exec, sig: &str, detail: String| {
+        ex.fail(sig, detail);
+        if verdict.is_none() {
+            verdict = Some(format!("reject {sig}"));
+        }
+    };
+    let (Some(w), Some(mode)) = (ws.first().and_then(|w| w.parse::<usize>().ok()), ws.get(1)) else {
+        return "bad-op".into();
+    };
+    let conc = *mode == "c";
+    ex.tag(format!("hist:w{w}"));
+    ex.tag(if conc { "hist:concurrent" } else { "hist:sequential" });
+    let mut ends: HashMap<usize, End> = HashMap::new();
+    let mut blocking: BTreeSet<usize> = BTreeSet::new();
+    let mut accepted: BTreeSet<usize> = BTreeSet::new();
+    let mut rejected: BTreeSet<usize> = BTreeSet::new();
+    let mut started: HashMap<usize, usize> = HashMap::new(); // task -> worker
+    let mut finished: BTreeSet<usize> = BTreeSet::new();
+    let mut resolved: BTreeSet<usize> = BTreeSet::new();
+    let mut running: Vec<Option<usize>> = vec![None; MAX_WORKERS + 1];
+    let mut died: Vec<(usize, usize)> = vec![]; // (worker, payload)
+    let mut join_called = false;
+    let mut join_ret = false;
+    let mut threads: BTreeSet<String> = BTreeSet::new();
+    for tok in &ws[2..] {
+        let p: Vec<&str> = tok.split('.').collect();
+        let num = |i: usize| p.get(i).and_then(|x| x.parse::<usize>().ok());
+        match p[0] {
+            "i" => {
+                if let (Some(t), Some(e)) = (num(1), p.get(3).and_then(|e| parse_end(e))) {
+                    ends.insert(t, e);
+                }
+                if let Some(th) = p.get(4) {
+                    threads.insert(th.to_string());
+                }
+            }
+            "I" => {
+                if let (Some(t), Some(e)) = (num(1), p.get(2).and_then(|e| parse_end(e))) {
+                    ends.insert(t, e);
+                    blocking.insert(t);
+                }
+            }
+            "a" => {
+                accepted.insert(num(1).unwrap_or(0));
+            }
+            "r" => {
+                let t = num(1).unwrap_or(0);
+                rejected.insert(t);
+                if !blocking.contains(&t) && died.len() < w {
+                    bad(ex, "C18:spurious-reject", format!("dispatch of task {t} refused while a worker was alive"));
+                }
+            }
+            "s" => {
+                let (wk, t) = (num(1).unwrap_or(MAX_WORKERS), num(2).unwrap_or(0));
+                if started.contains_key(&t) {
+                    bad(ex, "C18:started-twice", format!("task {t} started on worker {} and again on {wk}", started[&t]));
+                }
+                if rejected.contains(&t) || !ends.contains_key(&t) {
+                    bad(ex, "C18:started-unaccepted", format!("task {t} ran although dispatch did not accept it"));
+                }
+                if wk >= w {
+                    bad(ex, "C18:foreign-thread", format!("task {t} started on a thread that is not a worker"));
+                }
+                started.insert(t, wk);
+                let wk = wk.min(MAX_WORKERS);
+                if !conc {
+                    if let Some(u) = running[wk] {
+                        bad(ex, "C18:overlap", format!("worker {wk}: task {t} started while task {u} was running"));
+                    }
+                }
+                running[wk] = Some(t);
+            }
+            "f" => {
+                let t = num(1).unwrap_or(0);
+                finished.insert(t);
+                if let Some(wk) = started.get(&t) {
+                    let wk = (*wk).min(MAX_WORKERS);
+                    if running[wk] == Some(t) {
+                        running[wk] = None;
+                    }
+                }
+            }
+            "B" => {
+                let t = num(1).unwrap_or(0);
+                if started.contains_key(&t) {
+                    bad(ex, "C18:started-twice", format!("blocking task {t} ran twice"));
+                }
+                started.insert(t, usize::MAX);
+                finished.insert(t);
+            }
+            "x" => {
+                let (wk, pl) = (num(1).unwrap_or(MAX_WORKERS), num(2).unwrap_or(0));
+                died.push((wk, pl));
+                if wk <= MAX_WORKERS {
+                    running[wk] = None;
+                }
+            }
+            "g" => {
+                let (t, v) = (num(1).unwrap_or(0), num(2).unwrap_or(0) as u64);
+                resolved.insert(t);
+                if ends.get(&t) != Some(&End::Val(v)) || !finished.contains(&t) {
+                    bad(ex, "C18:wrong-result", format!("receiver of task {t} ({:?}) got {v}", ends.get(&t)));
+                }
+            }
+            "c" => {
+                let t = num(1).unwrap_or(0);
+                resolved.insert(t);
+                let end = ends.get(&t).copied();
+                let own_panic = end == Some(End::Panic) && finished.contains(&t);
+                let worker_died = started.get(&t).is_some_and(|wk| died.iter().any(|(d, _)| d == wk));
+                let ok = own_panic || worker_died || (join_called && (conc || !died.is_empty() || end == Some(End::Panic)));
+                if finished.contains(&t) && end != Some(End::Panic) {
+                    bad(ex, "C18:wrong-result", format!("task {t} ran to completion but its receiver was cancelled"));
+                } else if !ok {
+                    bad(ex, "C18:spurious-cancel", format!("receiver of task {t} cancelled: nothing dropped the task (join called: {join_called})"));
+                }
+            }
+            "h" => {
+                let t = num(1).unwrap_or(0);
+                resolved.insert(t);
+                if join_ret {
+                    bad(ex, "C18:receiver-hang", format!("receiver of task {t} unresolved after join returned"));
+                } else {
+                    bad(ex, "C18:receiver-hang-before-join", format!("receiver of task {t} unresolved (join not returned)"));
+                }
+            }
+            "J" => join_called = true,
+            "R" => {
+                join_ret = true;
+                if !join_called {
+                    bad(ex, "C18:join-result", "join returned before it was called".into());
+                }
+                let expect = died.iter().min().map(|(_, p)| *p);
+                let got = match p.get(1) {
+                    Some(&"ok") => Ok(None),
+                    Some(s) if s.starts_with('p') => s[1..].parse::<usize>().map(Some).map_err(|e| e.to_string()),
+                    other => Err(format!("{other:?}")),
+                };
+                match got {
+                    Ok(g) if g == expect => {}
+                    _ => bad(ex, "C18:join-result", format!("join returned {:?}, worker panics (worker, payload): {died:?}", p.get(1))),
+                }
+                if !conc && died.is_empty() {
+                    for t in &accepted {
+                        if blocking.contains(t) {
+                            continue;
+                        }
+                        if !started.contains_key(t) {
+                            bad(ex, "C18:never-started", format!("sequential mode: accepted task {t} was never started although join returned"));
+                        } else if !finished.contains(t) {
+                            bad(ex, "C18:unfinished-at-join", format!("sequential mode: task {t} had not finished when join returned"));
+                        }
+                    }
+                }
+                if !conc {
+                    if let Some((wk, Some(u))) = running.iter().enumerate().find(|(_, r)| r.is_some()) {
+                        bad(ex, "C18:unfinished-at-join", format!("sequential mode: worker {wk} was inside task {u} when join returned"));
+                    }
+                }
+            }
+            "L" => {
+                let n = num(1).unwrap_or(99);
+                if n != 0 {
+                    bad(ex, "C18:worker-alive-after-join", format!("{n} worker thread(s) still exist after join returned"));
+                }
+            }
+            "Rhang" => bad(ex, "C18:join-hang", "join did not return".into()),
+            "P" => bad(ex, p.get(1).copied().unwrap_or("C18:problem"), p.get(2).copied().unwrap_or("").replace('_', " ")),
+            _ => return "bad-op".into(),
+        }
+    }
+    if join_ret {
+        for t in &accepted {
+            if !blocking.contains(t) && !resolved.contains(t) {
+                bad(ex, "C18:receiver-hang", format!("receiver of task {t} was never reported"));
+            }
+        }
+    }
+    ex.tag(format!("hist:threads{}", threads.len()));
+    if !died.is_empty() {
+        ex.tag("hist:worker-died");
+    }
+    if conc && join_ret && accepted.iter().any(|t| !blocking.contains(t) && !started.contains_key(t)) {
+        // not a failure of C18 as stated (join first => cancellation), but worth counting
+        ex.tag("hist:dropped-unstarted-at-join");
+    }
+    verdict.unwrap_or_else(|| "accept".into())
+}
+
+// ---------------------------------------------------------------------------------------------
+// conc cases: run the real dispatcher and record a history
+// ---------------------------------------------------------------------------------------------
+
+struct ThreadWaker(thread::Thread);
+impl Wake for ThreadWaker {
+    fn wake(self: Arc<Self>) {
+        self.0.unpark();
+    }
+}
+
+/// tiny executor for the dispatching threads (a `oneshot::Receiver` needs no runtime)
+fn block_on_timeout<F: Future>(f: F, dur: Duration) -> Option<F::Output> {
+    let mut f = pin!(f);
+    let waker = Waker::from(Arc::new(ThreadWaker(thread::current())));
+    let mut cx = Context::from_waker(&waker);
+    let deadline = Instant::now() + dur;
+    loop {
+        if let Poll::Ready(v) = f.as_mut().poll(&mut cx) {
+            return Some(v);
+        }
+        let now = Instant::now();
+        if now >= deadline {
+            return None;
+        }
+        thread::park_timeout(deadline - now);
+    }
+}
+
+#[derive(Clone, Debug)]
+struct PlanTask {
+    spec: Spec,
+    blocking: bool,
+    /// pause before the dispatch: 0 none, 1 yield, 2 ~100 µs sleep
+    pause: u8,
+    /// the dispatching thread awaits the receiver itself before it finishes
+    wait: bool,
+}
+
+#[derive(Clone, Copy, PartialEq, Eq, Debug)]
+enum JoinAt {
+    Immediately,
+    AfterSleep(u64),
+    AfterResults,
+}
+
+fn log_seen(ctx: &Ctx, t: usize, r: Option<Result<u64, oneshot::Canceled>>) {
+    ctx.push(match r {
+        Some(Ok(v)) => format!("g.{t}.{v}"),
+        Some(Err(_)) => format!("c.{t}"),
+        None => format!("h.{t}"),
+    });
+}
+
+fn run_conc(rt: &Runtime, cfg: &Cfg, plan: Vec<Vec<PlanTask>>, join_at: JoinAt) -> String {
+    let ctx = Ctx::new(!cfg.conc, true);
+    let disp = Arc::new(build(cfg, &ctx).expect("build dispatcher"));
+    let mut handles = vec![];
+    for (th, tasks) in plan.into_iter().enumerate() {
+        let ctx = ctx.clone();
+        let disp = disp.clone();
+        handles.push(thread::spawn(move || {
+            let mut mine: Vec<(usize, bool, oneshot::Receiver<u64>)> = vec![];
+            for pt in tasks {
+                match pt.pause {
+                    1 => thread::yield_now(),
+                    2 => thread::sleep(Duration::from_micros(100)),
+                    _ => {}
+                }
+                let t = pt.spec.t;
+                let end = pt.spec.end;
+                let res = if pt.blocking {
+                    ctx.push(format!("I.{t}.{}", show_end(end)));
+                    let c2 = ctx.clone();
+                    disp.dispatch_blocking(move || blocking_body(&c2, t, end)).map_err(|_| ())
+                } else {
+                    let susp = if pt.spec.susp.is_empty() { "-".to_string() } else { pt.spec.susp.clone() };
+                    ctx.push(format!("i.{t}.{susp}.{}.{th}", show_end(end)));
+                    let c2 = ctx.clone();
+                    let spec = pt.spec.clone();
+                    disp.dispatch(move || body(c2, spec)).map_err(|_| ())
+                };
+                match res {
+                    Ok(rx) => {
+                        ctx.push(format!("a.{t}"));
+                        mine.push((t, pt.wait, rx));
+                    }
+                    Err(()) => ctx.push(format!("r.{t}")),
+                }
+            }
+            drop(disp);
+            let mut rest = vec![];
+            for (t, wait, rx) in mine {
+                if wait {
+                    let r = block_on_timeout(rx, WATCHDOG);
+                    log_seen(&ctx, t, r);
+                } else {
+                    rest.push((t, rx));
+                }
+            }
+            rest
+        }));
+    }
+    let mut rest: Vec<(usize, oneshot::Receiver<u64>)> = vec![];
+    for h in handles {
+        rest.extend(h.join().expect("dispatching thread"));
+    }
+    rt.block_on(async {
+        match join_at {
+            JoinAt::Immediately => {}
+            JoinAt::AfterSleep(ms) => compio_runtime::time::sleep(Duration::from_millis(ms)).await,
+            JoinAt::AfterResults => {
+                for (t, rx) in std::mem::take(&mut rest) {
+                    let r = compio_runtime::time::timeout(WATCHDOG, rx).await.ok();
+                    log_seen(&ctx, t, r);
+                }
+            }
+        }
+        let disp = Arc::try_unwrap(disp).expect("dispatcher still shared");
+        ctx.push("J".into());
+        let res = compio_runtime::time::timeout(JOIN_WATCHDOG, AssertUnwindSafe(disp.join()).catch_unwind()).await;
+        match res {
+            Err(_) => ctx.push("Rhang".into()),
+            Ok(Ok(Ok(()))) => ctx.push("R.ok".into()),
+            Ok(Ok(Err(_))) => ctx.push("R.err".into()),
+            Ok(Err(p)) => {
+                let msg = panic_text(p);
+                match bomb_payload(&msg) {
+                    Some(t) => ctx.push(format!("R.p{t}")),
+                    None => ctx.push("R.p?".into()),
+                }
+            }
+        }
+        ctx.push(format!("L.{}", alive_workers(&ctx)));
+        for (t, rx) in rest {
+            let r = compio_runtime::time::timeout(Duration::from_secs(2), rx).await.ok();
+            log_seen(&ctx, t, r);
+        }
+    });
+    let mut line = format!("hist {} {}", cfg.w, if cfg.conc { "c" } else { "s" });
+    for tok in ctx.log.lock().unwrap().iter() {
+        line.push(' ');
+        line.push_str(tok);
+    }
+    for (sig, detail) in ctx.problems.lock().unwrap().drain(..) {
+        // problems seen by the bodies themselves (overlap gauge, foreign thread) travel as tokens too,
+        // so that the judged line is self-contained
+        line.push_str(&format!(" P.{}.{}", sig.replace(['.', ' '], "_"), detail.replace(['.', ' '], "_")));
+    }
+    line
+}
+
+// ---------------------------------------------------------------------------------------------
+// generators
+// ---------------------------------------------------------------------------------------------
+
+fn gen_cfg(rng: &mut Rng) -> (usize, bool, String) {
+    let w = match rng.below(10) {
+        0..=2 => 1,
+        3..=4 => 2,
+        5 => 3,
+        6 => 4,
+        _ => rng.range(1, 8) as usize,
+    };
+    let conc = rng.chance(1, 2);
+    let mut s = format!("cfg {w} {}", if conc { "c" } else { "s" });
+    if rng.chance(1, 5) {
+        s.push_str(&format!(" stack={}", rng.pick(&[256 * 1024usize, 512 * 1024, 2 * 1024 * 1024])));
+    }
+    if rng.chance(1, 6) {
+        s.push_str(" aff");
+    }
+    if rng.chance(1, 2) {
+        s.push_str(&format!(" cap={}", rng.pick(&[8u32, 32, 64, 256])));
+    }
+    (w, conc, s)
+}
+
+fn gen_susp(rng: &mut Rng) -> String {
+    match rng.below(12) {
+        0..=3 => "-".into(),
+        4 => "y".into(),
+        5 => "s".into(),
+        6 => "i".into(),
+        7 => "t".into(),
+        8 => "yy".into(),
+        9 => "ys".into(),
+        10 => "iy".into(),
+        _ => {
+            let n = rng.range(1, 4);
+            (0..n).map(|_| *rng.pick(&['y', 'y', 's', 'i'])).collect()
+        }
+    }
+}
+
+#[derive(Clone)]
+struct GTask {
+    t: usize,
+    end: End,
+    blocking: bool,
+    accepted: bool,
+    /// `wait`ed or otherwise known to have ended
+    settled: bool,
+    /// result and counters after join are the same on every schedule
+    det_rx: bool,
+    det_stat: bool,
+    rx_dropped: bool,
+    stranded: bool,
+}
+
+fn gen_det(rng: &mut Rng) -> Vec<String> {
+    let (w, conc, cfg) = gen_cfg(rng);
+    let mut l = vec![cfg];
+    let mut tasks: Vec<GTask> = vec![];
+    let mut next = 1usize;
+    let mut live = w;
+    let mut bombs = 0usize;
+    let n_ops = rng.range(2, 14);
+    let mut ops_left = n_ops;
+    while ops_left > 0 {
+        ops_left -= 1;
+        match rng.below(10) {
+            0..=4 => {
+                let t = next;
+                next += 1;
+                let susp = gen_susp(rng);
+                let bomb_ok = w == 1 || bombs == 0;
+                let end = match rng.below(20) {
+                    0..=1 => End::Panic,
+                    2..=3 if conc => End::Never,
+                    4..=5 if bomb_ok => End::Bomb,
+                    _ => End::Val(rng.below(1000)),
+                };
+                let accepted = live > 0;
+                let zero = susp == "-";
+                let mut g = GTask {
+                    t,
+                    end,
+                    blocking: false,
+                    accepted,
+                    settled: false,
+                    det_rx: true,
+                    det_stat: true,
+                    rx_dropped: false,
+                    stranded: false,
+                };
+                if conc {
+                    match end {
+                        End::Val(_) => {
+                            g.det_rx = zero;
+                            g.det_stat = zero;
+                        }
+                        End::Panic => g.det_stat = zero,
+                        _ => {}
+                    }
+                }
+                l.push(format!("d {t} {susp} {}", show_end(end)));
+                if end == End::Bomb && accepted {
+                    bombs += 1;
+                    if conc {
+                        // tasks still running may share the doomed worker
+                        for o in tasks.iter_mut().filter(|o| !o.settled && !o.blocking) {
+                            if matches!(o.end, End::Val(_) | End::Panic) && !(o.det_rx && o.det_stat) {
+                                o.det_rx = false;
+                                o.det_stat = false;
+                            }
+                        }
+                    }
+                    // sequential mode, one worker: what is dispatched before the bomb goes off stays queued
+                    let mut between = vec![];
+                    if !conc && w == 1 && rng.chance(1, 2) {
+                        for _ in 0..rng.range(1, 2) {
+                            let u = next;
+                            next += 1;
+                            let e2 = if rng.chance(1, 4) { End::Panic } else { End::Val(rng.below(1000)) };
+                            l.push(format!("d {u} {} {}", gen_susp(rng), show_end(e2)));
+                            between.push(GTask {
+                                t: u,
+                                end: e2,
+                                blocking: false,
+                                accepted: true,
+                                settled: false,
+                                det_rx: true,
+                                det_stat: true,
+                                rx_dropped: false,
+                                stranded: true,
+                            });
+                        }
+                    }
+                    l.push(format!("wait {t}"));
+                    g.settled = true;
+                    live -= 1;
+                    tasks.push(g);
+                    tasks.extend(between);
+                } else {
+                    tasks.push(g);
+                }
+            }
+            5 => {
+                let t = next;
+                next += 1;
+                let end = if rng.chance(1, 6) { End::Panic } else { End::Val(rng.below(1000)) };
+                l.push(format!("b {t} {}", show_end(end)));
+                tasks.push(GTask {
+                    t,
+                    end,
+                    blocking: true,
+                    accepted: true,
+                    settled: false,
+                    det_rx: true,
+                    det_stat: true,
+                    rx_dropped: false,
+                    stranded: false,
+                });
+            }
+            6..=8 => {
+                // wait for something that is sure to resolve
+                let cands: Vec<usize> = tasks
+                    .iter()
+                    .enumerate()
+                    .filter(|(_, g)| {
+                        g.accepted && !g.settled && !g.rx_dropped && !g.stranded && matches!(g.end, End::Val(_) | End::Panic)
+                    })
+                    .map(|(i, _)| i)
+                    .collect();
+                if !cands.is_empty() {
+                    let i = *rng.pick(&cands);
+                    l.push(format!("wait {}", tasks[i].t));
+                    tasks[i].settled = true;
+                    tasks[i].det_rx = true;
+                    tasks[i].det_stat = true;
+                }
+            }
+            _ => {
+                let cands: Vec<usize> = tasks
+                    .iter()
+                    .enumerate()
+                    .filter(|(_, g)| g.accepted && !g.settled && !g.rx_dropped)
+                    .map(|(i, _)| i)
+                    .collect();
+                if !cands.is_empty() && rng.chance(1, 2) {
+                    let i = *rng.pick(&cands);
+                    l.push(format!("drop {}", tasks[i].t));
+                    tasks[i].rx_dropped = true;
+                }
+            }
+        }
+    }
+    l.push("join".into());
+    for g in &tasks {
+        if !g.accepted {
+            continue;
+        }
+        if g.det_rx && !g.rx_dropped && rng.chance(4, 5) {
+            l.push(format!("rx {}", g.t));
+        }
+        if g.det_stat && rng.chance(4, 5) {
+            l.push(format!("stat {}", g.t));
+        }
+    }
+    l.push("alive".into());
+    if w == 1 {
+        l.push("order".into());
+    }
+    l
+}
+
+fn gen_conc(rt: &Runtime, rng: &mut Rng, big: bool) -> Vec<String> {
+    let (w, conc, cfgline) = gen_cfg(rng);
+    let cfgws: Vec<&str> = cfgline.split_whitespace().skip(1).collect();
+    let cfg = parse_cfg(&cfgws).unwrap();
+    let nthreads = match rng.below(6) {
+        0 => 1,
+        1..=2 => 2,
+        3 => 4,
+        _ => rng.range(1, 8) as usize,
+    };
+    let with_bombs = rng.chance(1, 5);
+    let join_at = match rng.below(if with_bombs { 2 } else { 3 }) {
+        0 => JoinAt::Immediately,
+        1 => JoinAt::AfterSleep(rng.range(1, 6)),
+        _ => JoinAt::AfterResults,
+    };
+    let mut next = 1usize;
+    let mut plan = vec![];
+    let mut bombs = 0;
+    for _ in 0..nthreads {
+        let n = if big { rng.range(1, 40) } else { rng.range(1, 8) };
+        let mut v = vec![];
+        for _ in 0..n {
+            let t = next;
+            next += 1;
+            let blocking = rng.chance(1, 12);
+            let susp = gen_susp(rng);
+            let end = if blocking {
+                if rng.chance(1, 6) { End::Panic } else { End::Val(rng.below(1000)) }
+            } else {
+                match rng.below(24) {
+                    0..=1 => End::Panic,
+                    // a task that never ends: concurrent mode only (sequential `join` would wait for it);
+                    // nobody may wait for it before join
+                    2..=3 if conc && join_at != JoinAt::AfterResults => End::Never,
+                    4 if with_bombs && bombs < w => {
+                        bombs += 1;
+                        End::Bomb
+                    }
+                    _ => End::Val(rng.below(1000)),
+                }
+            };
+            let wait = !with_bombs && matches!(end, End::Val(_) | End::Panic) && rng.chance(1, 3);
+            v.push(PlanTask {
+                spec: Spec { t, susp: if susp == "-" { String::new() } else { susp }, end },
+                blocking,
+                pause: rng.below(4) as u8,
+                wait,
+            });
+        }
+        plan.push(v);
+    }
+    vec![run_conc(rt, &cfg, plan, join_at)]
+}
+
+fn main() {
+    // worker-thread and task panics are part of the scenarios
+    std::panic::set_hook(Box::new(|_| {}));
+    let rt = Runtime::new().expect("harness runtime");
+    let rt2 = Runtime::new().expect("harness runtime");
+    run_harness(
+        |tier, rng| {
+            let (n_det, n_conc, n_big) = if tier == "thorough" { (12000, 6000, 300) } else { (1500, 700, 30) };
+            let mut cases = vec![];
+            for i in 0..n_det {
+                cases.push(Case { name: format!("det/{i}"), lines: gen_det(rng) });
+            }
+            for i in 0..n_conc {
+                cases.push(Case { name: format!("conc/{i}"), lines: gen_conc(&rt2, rng, false) });
+            }
+            for i in 0..n_big {
+                cases.push(Case { name: format!("conc-big/{i}"), lines: gen_conc(&rt2, rng, true) });
+            }
+            cases
+        },
+        |case| exec_det(&rt, case),
+        "det cases: random programs of dispatch / dispatch_blocking / receiver drop / wait / join / post-join queries on the real Dispatcher (1..8 workers, both modes, builder options, bodies that yield / sleep / do pipe I/O / panic / never end / make the worker thread panic); conc cases: histories of the real Dispatcher under 1..8 dispatching threads, judged by the oracle and the Lean acceptor. distinct by case text; non-trivial = a history, or a det program with at least two dispatches and a join",
+    );
 }
